@@ -197,6 +197,17 @@ def timing(tier, seed):
             acc.validated += 1
             if bad:
                 acc.fail("C08::shell::priced_at_last_quote_within_latency", "c08_timing", {"case": "latency", "latency": L, "offset": off}, bad[:2])
+    # fractional latencies: the closed end of (t, t + L] must hold for values such as 4.1 s whose product with 1e6 is not an exact float
+    for L in ((0.3, 4.1, 16.4) if tier == "quick" else (0.3, 2.01, 4.02, 4.1, 8.2, 16.4, 32.3)):
+        for off in (round(L - 0.001, 6), L, round(L + 0.001, 6)):
+            try:
+                bad = latency_case(L, off)
+            except Exception as ex:
+                bad = [{"raised": "%s: %s" % (type(ex).__name__, str(ex)[:200])}]
+            acc.case(("latency", L, off))
+            acc.validated += 1
+            if bad:
+                acc.fail("C08::shell::priced_at_last_quote_within_latency", "c08_timing", {"case": "latency", "latency": L, "offset": off}, bad[:2])
     for kind in ("box", "disc"):
         for as_weights in (True, False):
             for fractional in (True, False):
